@@ -63,6 +63,9 @@ XROOT = z3.Function("xml_root", Blob, XmlT)
 NEL = z3.Function("xml_iter_len", XmlT, I)                    # ... root.iter() = all elements in document order
 EL = z3.Function("xml_iter_elem", XmlT, I, XmlT)
 TAG = z3.Function("xml_tag", XmlT, S)                         # Clark notation {namespace}local
+RAWHAS = z3.Function("raw_bytes_contain", Blob, S, B)          # the member's RAW bytes contain the byte string (rendered latin-1)
+ASCII_COMPAT = z3.Function("xml_encoding_is_ascii_compatible", Blob, B)   # the document is serialised in UTF-8 / ISO-8859-x / ... (not UTF-16/32)
+BLEN = z3.Function("raw_bytes_len", Blob, I)                   # number of raw bytes of the member (a well-formed XML document is not empty)
 AFTER_LAST = z3.Function("text_after_last", S, S, S)          # the part of s after the last occurrence of sep (all of s if none)
 
 
@@ -316,6 +319,54 @@ def m_xml_iter(ex, st, obj, args, kwargs, node):
     return [(st, VSeq(NEL(obj.t), lambda k: VExt("XmlElem", EL(obj.t, k)), "XmlElem"))]
 
 
+ENC_ELEM_NAME = "encryption-data"
+
+
+def raw_has(ex, st, blob_t, needle):
+    """`needle in blob` / blob.find(needle) on the RAW bytes of a ZIP member (ASSUMED view): an uninterpreted predicate of
+    (member, needle).  What links it to the XML tree is encoding-dependent: an element name occurs literally in the raw bytes
+    only when the document is serialised in an ASCII-compatible encoding (XML 1.0 4.3.3: UTF-16 documents are ordinary XML
+    and the parser reads them) -- so a byte-level test is no necessary condition for `the tree has the element`."""
+    if not isinstance(needle, (bytes, bytearray)):
+        ex._imprecise("raw byte search with a needle that is not a constant")
+        return z3.Bool(fresh_name("rawhas"))
+    txt = bytes(needle).decode("latin-1")
+    t = RAWHAS(blob_t, sv(txt))
+    if not txt:
+        st.assume(t)
+    elif txt in ENC_ELEM_NAME:
+        st.assume(z3.Implies(z3.And(HAS_ENC_ELEM(blob_t), ASCII_COMPAT(blob_t)), t))
+    if not (len(txt) >= 2 and all(0x21 <= c <= 0x7E for c in needle)):
+        # (one byte / NUL-padded / non-ASCII needles: whether a counter-model is a real document is not decided here)
+        ex._imprecise("raw byte search in an XML member with a needle that is not plain ASCII text")
+    return t
+
+
+def _needle(ex, v):
+    if isinstance(v, VBytes):
+        c = ex.py_const(v)
+        return c if isinstance(c, (bytes, bytearray)) else None
+    return None
+
+
+def m_blob_find(ex, st, obj, args, kwargs, node):
+    """bytes.find(needle) / .index / .count on a member's raw bytes: >= 0 (> 0 for count) iff the bytes contain the needle."""
+    name = getattr(getattr(node, "func", None), "attr", "find")
+    if len(args) != 1 or kwargs:
+        return ex.havoc_call(st, f"bytes.{name}", args, node)
+    t = raw_has(ex, st, obj.t, _needle(ex, args[0]))
+    r = z3.Int(fresh_name(name))
+    if name == "index":
+        st = ex.fork_raise(st, z3.Not(t), "ValueError")
+        if st is None:
+            return []
+    if name == "count":
+        st.assume(z3.And(r >= 0, (r > 0) == t))
+    else:
+        st.assume(z3.And(r >= -1, (r >= 0) == t))
+    return [(st, VInt(r))]
+
+
 def _const_sep(args, i=1):
     return args[i].const() if len(args) > i and isinstance(args[i], VStr) and args[i].const() else None
 
@@ -392,6 +443,8 @@ def install_container_models(reg):
     reg.ext_models["zipfile.is_zipfile"] = m_is_zipfile
     reg.method_models[("ZipFile", "read")] = m_zip_read
     reg.method_models[("Blob", "decode")] = m_blob_decode
+    for nm in ("find", "rfind", "index", "count"):
+        reg.method_models[("Blob", nm)] = m_blob_find
     reg.ext_models["struct.Struct"] = m_struct_new
     reg.method_models[("Struct", "unpack_from")] = m_struct_unpack_from
     reg.ext_models["struct.unpack_from"] = m_struct_unpack_from_fn
@@ -766,7 +819,27 @@ class C08Executor(readfile.ReadFileExecutor):
     def _grown_list(self, st, v):
         return hasattr(v, "ref") and st.obj(v.ref).kind == "unk" and st.ghost.get(("growing", v.ref))
 
+    def b_len(self, st, args, kwargs, node):
+        if len(args) == 1 and isinstance(args[0], VExt) and args[0].sort == "Blob":
+            t = BLEN(args[0].t)
+            st.assume(z3.And(t >= 0, z3.Implies(XMLOK(args[0].t), t > 0)))
+            return [(st, VInt(t))]
+        return super().b_len(st, args, kwargs, node)
+
+    def b_int(self, st, args, kwargs, node):
+        if len(args) == 1 and isinstance(args[0], VExt) and args[0].sort == "PdfObj":
+            self.exc_any(st.fork(), f"{self.loc(node)} int(PdfObject)")
+            return [(st, VInt(PINT(args[0].t)))]
+        return super().b_int(st, args, kwargs, node)
+
+    def to_str(self, st, v, formatted=False):
+        if isinstance(v, VExt) and v.sort == "PdfObj" and not formatted:
+            return VStr(PNAME(v.t))
+        return super().to_str(st, v, formatted)
+
     def get_index(self, st, base, idx, node):
+        if isinstance(base, VExt) and base.sort == "PdfObj":
+            return m_pdfobj_index(self, st, base, idx, node)
         if isinstance(base, VPieces) and isinstance(idx, VInt) and idx.const() == -1:
             return [(st, base.last)]          # a split result is never empty: [-1] exists and is the text after the last separator
         return super().get_index(st, base, idx, node)
@@ -822,6 +895,12 @@ class C08Executor(readfile.ReadFileExecutor):
             if sa is not None and sb is not None:
                 t = self._bytes_eq(sa, sb)
                 return [(st, VBool(t if op == "Eq" else z3.Not(t)))]
+        if op not in ("Is", "IsNot", "In", "NotIn"):           # pypdf numbers / names compare like the int / str they extend
+            pa, pb = (isinstance(v, VExt) and v.sort == "PdfObj" for v in (a, b))
+            if pa and isinstance(b, VInt) or pb and isinstance(a, VInt):
+                return super().compare(st, op, VInt(PINT(a.t)) if pa else a, VInt(PINT(b.t)) if pb else b, node)
+            if op in ("Eq", "NotEq") and (pa and isinstance(b, VStr) or pb and isinstance(a, VStr)):
+                return super().compare(st, op, VStr(PNAME(a.t)) if pa else a, VStr(PNAME(b.t)) if pb else b, node)
         if op in ("Eq", "NotEq"):
             for x, y in ((a, b), (b, a)):
                 if isinstance(x, VExt) and x.sort == "CoderId" and isinstance(y, VBytes):
@@ -830,6 +909,13 @@ class C08Executor(readfile.ReadFileExecutor):
                         t = BSTR(x.t) == sv(cb.decode("latin-1"))
                         return [(st, VBool(t if op == "Eq" else z3.Not(t)))]
         return super().compare(st, op, a, b, node)
+
+    def contains(self, st, container, item, node):
+        if isinstance(container, VExt) and container.sort == "PdfObj" and isinstance(item, VStr):       # "/CF" in encrypt
+            return [(st, VBool(PHAS(container.t, item.t)))]
+        if isinstance(container, VExt) and container.sort == "Blob":            # needle in <raw bytes of a ZIP member>
+            return [(st, VBool(raw_has(self, st, container.t, _needle(self, item))))]
+        return super().contains(st, container, item, node)
 
     def e_GeneratorExp(self, n, st):
         from pyvc.ops import Unsupported
@@ -1136,8 +1222,10 @@ EXECUTOR_KW = {}
 # ---------------------------------------------------------------- contracts --
 def xml_axiom(f):
     """ASSUMED XML fact: an element named (prefix:)encryption-data occurs in the tree only if that
-    name occurs literally in the serialised text (element names cannot be escaped)."""
-    return z3.Implies(HAS_ENC_ELEM(manifest_blob(f)), z3.Contains(manifest_text(f), sv("encryption-data")))
+    name occurs literally in the serialised text (element names cannot be escaped) -- for documents in an ASCII-compatible
+    encoding only: the UTF-8 decoding of a UTF-16 manifest does not contain the name (round 6: the unconditional form was wrong)."""
+    b = manifest_blob(f)
+    return z3.Implies(z3.And(HAS_ENC_ELEM(b), ASCII_COMPAT(b)), z3.Contains(manifest_text(f), sv(ENC_ELEM_NAME)))
 
 
 def xls_loop_view(lc):
@@ -1958,6 +2046,73 @@ def m_pdf_decrypt(ex, st, obj, args, kwargs, node):
     return [(st, VInt(DEC(obj.t)))]
 
 
+# ASSUMED view of the document's /Encrypt dictionary as pypdf presents it (validated natively on the stored PDFs): dictionaries
+# with name keys (`d[k]` / `d.get(k, default)` / `k in d`; pypdf resolves indirect references on access, get_object() of a
+# resolved object is the object), numbers (int(x), comparisons) and names (str(x), == "text").
+PdfObj = ext_sort("PdfObj")
+TRAILER = z3.Function("pdf_trailer", PdfR, PdfObj)
+PHAS = z3.Function("pdf_dict_has", PdfObj, S, B)
+PGET = z3.Function("pdf_dict_get", PdfObj, S, PdfObj)
+PRES = z3.Function("pdf_get_object", PdfObj, PdfObj)
+PINT = z3.Function("pdf_number_value", PdfObj, I)
+PNAME = z3.Function("pdf_name_text", PdfObj, S)
+AES_CFMS = ("/AESV2", "/AESV3")                       # PDF 32000-1 Table 25 / PDF 2.0: crypt filter methods that decrypt with AES
+
+
+def pdf_uses_aes(r):
+    """The standard security handler of the document decrypts with AES (PDF 32000-1 7.6.5, as pypdf's Encryption.read
+    resolves it): /V >= 4 and the crypt filter NAMED by /StmF, /StrF or /EFF (default /Identity; /EFF defaults to /StmF) --
+    whatever it is called -- has /CFM /AESV2 or /AESV3 in the /CF dictionary."""
+    e = PGET(TRAILER(r), sv("/Encrypt"))
+    v = z3.If(PHAS(e, sv("/V")), PINT(PGET(e, sv("/V"))), z3.IntVal(0))
+    cf = PGET(e, sv("/CF"))
+
+    def named(key, default):
+        return z3.If(PHAS(e, sv(key)), PNAME(PGET(e, sv(key))), default)
+
+    def aes(n):
+        f = PGET(cf, n)
+        return z3.And(n != sv("/Identity"), PHAS(e, sv("/CF")), PHAS(cf, n), PHAS(f, sv("/CFM")),
+                      z3.Or([PNAME(PGET(f, sv("/CFM"))) == sv(m) for m in AES_CFMS]))
+    stm = named("/StmF", sv("/Identity"))
+    return z3.And(v >= 4, z3.Or(aes(stm), aes(named("/StrF", sv("/Identity"))), aes(named("/EFF", stm))))
+
+
+def _pobj(st, t):
+    st.assume(PRES(t) == t)
+    return VExt("PdfObj", t)
+
+
+def _pkey(v):
+    return v.t if isinstance(v, VStr) else None
+
+
+def m_pdfobj_index(ex, st, obj, idx, node):
+    k = _pkey(idx)
+    if k is None:
+        ex.exc_any(st.fork(), f"{ex.loc(node)} PdfObject[...]")
+        return [(st, VExt("PdfObj"))]
+    ex.exc_any(st.fork(), f"{ex.loc(node)} PdfObject[key] (resolving an indirect reference)")
+    st2 = ex.fork_raise(st, z3.Not(PHAS(obj.t, k)), "KeyError")
+    return [] if st2 is None else [(st2, _pobj(st2, PGET(obj.t, k)))]
+
+
+def m_pdfobj_get(ex, st, obj, args, kwargs, node):
+    k = _pkey(args[0]) if args else None
+    if k is None or len(args) > 2 or kwargs:
+        return ex.havoc_call(st, "PdfObject.get", args, node)
+    ex.exc_any(st.fork(), f"{ex.loc(node)} PdfObject.get (resolving an indirect reference)")
+    out = []
+    a, b_ = st.fork(), st
+    if ex.feasible(a.pc, PHAS(obj.t, k)):
+        a.assume(PHAS(obj.t, k))
+        out.append((a, _pobj(a, PGET(obj.t, k))))
+    if ex.feasible(b_.pc, z3.Not(PHAS(obj.t, k))):
+        b_.assume(z3.Not(PHAS(obj.t, k)))
+        out.append((b_, args[1] if len(args) == 2 else NONE))
+    return out
+
+
 def m_pdf_pages(ex, st, obj):
     h = getattr(ex.contract, "on_pages", None)
     if h is not None:
@@ -2116,6 +2271,9 @@ def pdf_contracts(reg):
     reg.attr_models[("PdfReader", "is_encrypted")] = lambda ex, st, o: VBool(PENC(o.t))
     reg.attr_models[("PdfReader", "pages")] = m_pdf_pages
     reg.method_models[("PdfReader", "decrypt")] = m_pdf_decrypt
+    reg.attr_models[("PdfReader", "trailer")] = lambda ex, st, o: _pobj(st, TRAILER(o.t))
+    reg.method_models[("PdfObj", "get")] = m_pdfobj_get
+    reg.method_models[("PdfObj", "get_object")] = lambda ex, st, o, a, k, n: [(st, VExt("PdfObj", PRES(o.t)))]
     out = []
     out.append(aes_patch_contract(reg))
     out += pkcs7_contracts(reg)
@@ -2171,8 +2329,10 @@ def pdf_contracts(reg):
                   z3.And(z3.BoolVal(ok), checked(ex, st, obj.t)) if ok else z3.BoolVal(False))
     def pdf_on_decrypt(ex, st, obj, node):
         # AES-128 files pass the constructor without AES: the built-in AES must have been installed on every path to decrypt()
-        ex.add_vc("typestate", "aes-provider-ensured-before-decrypt", st.pc, z3.BoolVal(bool(st.ghost.get("aes_ensured"))), loc=ex.loc(node),
-                  note=f"{ex.loc(node)} reader.decrypt reachable without patch_pypdf_fallback_aes() having been called")
+        # ... unless the /Encrypt dictionary says that the document does not decrypt with AES (pdf_uses_aes: by the NAMED filters)
+        ex.add_vc("typestate", "aes-provider-ensured-before-decrypt", st.pc,
+                  z3.Or(z3.BoolVal(bool(st.ghost.get("aes_ensured"))), z3.Not(pdf_uses_aes(obj.t))), loc=ex.loc(node),
+                  note=f"{ex.loc(node)} reader.decrypt reachable without patch_pypdf_fallback_aes() having been called although the document may name an AES crypt filter")
     cp.on_yield, cp.on_pages, cp.on_decrypt = pdf_on_yield, pdf_on_pages, pdf_on_decrypt
     EXECUTOR_KW[t] = {"abstract": True, "inline_calls": False, "inline_local": True, "merge_after_check": True}
     out.append(cp)
@@ -2430,7 +2590,7 @@ def view_validation(repo, tier):
     root = os.path.dirname(os.path.dirname(os.path.abspath(__file__)))
     try:
         p = subprocess.run(["/venv/bin/python", os.path.join(root, "replay", "run.py")], input=json.dumps({"property": "C08", "validate_views": True, "repo": repo}),
-                           capture_output=True, text=True, timeout=300, env=dict(os.environ, VERIF_REPO=repo))
+                           capture_output=True, text=True, timeout=1800, env=dict(os.environ, VERIF_REPO=repo))      # (guards a hang only; load-independent verdict)
         facts = json.loads([l for l in p.stdout.splitlines() if l.startswith("{")][-1]).get("facts", [])
     except Exception as e:  # noqa
         facts = [{"fact": "validator-ran", "ok": False, "detail": str(e)[:200]}]
@@ -2458,7 +2618,7 @@ def native_sweep(repo, tier):
     oid = "C08/native::sweep/bounded#encrypted-rejected-before-any-result-and-plain-never-rejected"
     try:
         p = subprocess.run(["/venv/bin/python", os.path.join(root, "replay", "run.py")], input=json.dumps({"property": "C08", "obligation": oid, "repo": repo}),
-                           capture_output=True, text=True, timeout=900, env=dict(os.environ, VERIF_REPO=repo))
+                           capture_output=True, text=True, timeout=2400, env=dict(os.environ, VERIF_REPO=repo))
         res = json.loads([l for l in p.stdout.splitlines() if l.startswith("{")][-1])
     except Exception as e:  # noqa
         res = {"reproduced": False, "note": "sweep did not run: " + str(e)[:200], "failed_to_run": True}
@@ -2537,18 +2697,22 @@ def known_findings(kf, violations, repo, tier):
 
 
 TRUSTED = ["olefile / zipfile / pypdf / ElementTree present the container faithfully (the abstract views below)",
-           "the assumed XML fact: an element name occurs literally in the serialised manifest"]
+           "the assumed XML fact: an element name occurs literally in the serialised manifest when its encoding is ASCII-compatible"]
 ASSUMED_MODELS = [
     "olefile.isOleFile(f) / OleFileIO(f): predicate and directory view of the same bytes; exists(name); openstream(name).read() = whole stream or failure (READABLE)",
     "zipfile.is_zipfile / ZipFile(f) / infolist() / ZipInfo.is_dir() / flag_bits / filename; ZipFile.read(name): KeyError iff no such member",
-    "bytes.decode('utf-8', errors='ignore') of the ODF manifest is its text (UTF-8 producers; a UTF-16 manifest is outside the model)",
+    "bytes.decode('utf-8', errors='ignore') of the ODF manifest is its text when the manifest is in an ASCII-compatible encoding (ASCII_COMPAT); "
+    "`needle in manifest` / .find / .index / .count on the raw member bytes = uninterpreted RAWHAS(member, needle): an element name occurs in the "
+    "raw bytes only under ASCII_COMPAT (UTF-16 manifests are inside the model: a byte-level pre-filter does not see their element names)",
     "struct.Struct('<H'|'<I').unpack_from: little-endian unsigned field, struct.error when out of range",
     "int.from_bytes(b, 'little') for 0..2 bytes",
     "SevenZipFile(f).__enter__ parses the archive; when the parse reaches an AES coder of the encoded header the decoder's encryption signal escapes "
     "(verified link by link: _apply_decoder, _decompress_folder, _parse_encoded_header, _parse_end_header, _parse_header, SevenZipReader.__init__, SevenZipFile.__enter__)",
     "SevenZipFile.needs_password() on the opened archive = verified contract of SevenZipFile/SevenZipReader.needs_password",
     "_EpubContext(f).exists / read_xml_root / close (total); Element.findall('.//{xmlenc}EncryptedData') = all such descendants",
-    "pypdf.PdfReader(f), .is_encrypted, .decrypt(''), .pages",
+    "pypdf.PdfReader(f), .is_encrypted, .decrypt(''), .pages; reader.trailer and the /Encrypt dictionary as name-keyed dictionaries of numbers / names "
+    "(d[k], d.get(k, default), k in d, get_object(), int(), str(), comparisons); `the document decrypts with AES` = /V >= 4 and the crypt filter NAMED "
+    "by /StmF, /StrF or /EFF has /CFM /AESV2 or /AESV3 (pdf_uses_aes)",
     "_DocReader(f) used as a context manager: read() behaves as the verified contract of _DocReader.read on a fresh reader",
     "close() of container / context handles is total",
     "attribute reads / comparisons on plain data objects raise at most AttributeError / TypeError",
